@@ -57,7 +57,10 @@ def one(cand):
         prev = PREV.get(cand, {}).get("checks")
         for p in ([] if prev else PROPS):
             e = dict(env, SPV_REPO=mut)
-            rc, out = sh(f"./check {p} --no-write", cwd="/verif", env=e, timeout=900)
+            try:
+                rc, out = sh(f"./check {p} --no-write", cwd="/verif", env=e, timeout=900)
+            except subprocess.TimeoutExpired:
+                rc, out = 124, "TIMEOUT"
             first = ""
             for line in out.splitlines():
                 if line.startswith("  rule="):
